@@ -124,8 +124,11 @@ RegDepIns == { Lw("t0", "a0", 0), Li("t0", 5), Addi("t0", "t0", 1), AddI("t1", "
                AddI("t2", "t1", "t0"), I("mul", "t3", "t0", "t0", 0, 0),
                Sw("t1", "a1", 64),    \* a store miss keeps the write path busy while registers are produced and consumed
                I("mv", "t1", "t1", "zero", 0, 0),    \* a self-move still is a pending write of its register
-               Addi("a0", "a0", 0), Lh("t1", "a0", 2) } \* the base register of a load is produced by the instruction before it
-RegDepCases == { <<s, img>> : s \in UpTo(RegDepIns, IF Size = "large" THEN 4 ELSE 3), img \in {"ramp"} }
+               Addi("a0", "a0", 0), Lh("t1", "a0", 2),   \* the base register of a load is produced by the instruction before it
+               Addi("zero", "zero", 0), I("sub", "t2", "zero", "t1", 0, 0) }   \* a write to the zero register, a reader of zero and of a pending register
+RegDepCore == RegDepIns \ { Addi("a0", "a0", 0), Lh("t1", "a0", 2), I("mv", "t1", "t1", "zero", 0, 0), Addi("zero", "zero", 0), I("sub", "t2", "zero", "t1", 0, 0) }
+(* all sequences up to 3 over every template; the thorough tier adds length 4 over the core templates *)
+RegDepCases == { <<s, img>> : s \in UpTo(RegDepIns, 3) \cup (IF Size = "large" THEN SeqOver(RegDepCore, 4) ELSE {}), img \in {"ramp"} }
 RegDepCase(x) ==
   LET p == x[1] \o <<Nop>>
       r0 == Regs0(64, 128, -5, 7, 1, 0)
@@ -273,8 +276,11 @@ TimingProgs == { <<AddI("t2", "t0", "t1"), I("mul", "t2", "t2", "t0", 0, 0), Sw(
                  <<I("div", "t2", "t0", "t3", 0, 0), I("rem", "t1", "t0", "t3", 0, 0), I("and", "t2", "t2", "t1", 0, 0), Nop>> }
 (* stores whose data may or may not equal what memory already holds *)
 TimingStores == { <<Sw("t0", "a0", 0), Nop>>, <<Sb("t1", "a1", 3), Sw("t0", "a0", 4), Nop, Nop>>, <<Sw("t0", "a0", 0), Lw("t2", "a0", 0), Nop>>,
-                  <<Sh("t0", "a0", 2), AddI("t2", "t0", "t1"), Nop>> }
-TimingVals == { <<1, 2>>, <<-1, 65536>>, <<2147483647, -2147483647>>, <<0, 0>> }
+                  <<Sh("t0", "a0", 2), AddI("t2", "t0", "t1"), Nop>>,
+                  \* a half-word store whose VALUE, read as an address, would fall into another line than its address does
+                  \* (lines 128 and 0 are made Modified first; image zero: the loaded bases are 0)
+                  <<Lw("t2", "zero", 0), Sh("t3", "zero", 128), Nop, Nop, Nop, Lw("a1", "t2", 64), Sh("t3", "t2", 8), Nop, Nop, Nop, Nop, Sh("t0", "a1", 130)>> }
+TimingVals == { <<1, 2>>, <<-1, 65536>>, <<2147483647, -2147483647>>, <<0, 0>>, <<5, 9>>, <<1000, 9>> }
 TimingCases == { <<p, v, img>> : p \in TimingProgs \cup TimingStores, v \in TimingVals, img \in {"ramp", "zero"} }
 TimingCase(x) ==
   LET p == x[1]
